@@ -1124,9 +1124,18 @@ fn tl(ts: &[usize]) -> String {
     format!("t={}", ts.iter().map(|k| k.to_string()).collect::<Vec<_>>().join(","))
 }
 
+/// x^d as a product of powers of at most 64 (the text form of a description limits a single exponent to 64)
+fn high_power(d: u32) -> Expr {
+    if d <= 64 {
+        Expr::pow(Expr::Cur(0), d)
+    } else {
+        Expr::mul(Expr::pow(Expr::Cur(0), 64), high_power(d - 64))
+    }
+}
+
 /// x' = x^d + k on one column (as in c01.rs)
 fn power_desc(n: usize, d: u32) -> AirDesc {
-    let rule = Expr::add(Expr::pow(Expr::Cur(0), d), Expr::Const(5));
+    let rule = Expr::add(high_power(d), Expr::Const(5));
     let c = Expr::sub(Expr::Nxt(0), rule.clone());
     AirDesc {
         width: 1,
@@ -1363,6 +1372,10 @@ impl Prop for P {
                         (7, 256, 4),
                         (9, 1024, 2),
                         (3, 2048, 4),
+                        // row counts at which rows / next_pow2(threads) crosses the literal 128 of commit_to_rows
+                        (2, 128, 8),
+                        (2, 512, 4),
+                        (2, 1024, 8),
                     ];
                     for (c, nn, b) in shapes {
                         if quick && e != "1" && c * nn > 3000 {
@@ -1454,6 +1467,44 @@ impl Prop for P {
         e2e.push((FieldId::F64, HashId::Sha3_256, OptSpec::new(3, 8, 0, 3, 2, 1), wide_desc(20, 16, 4, 45, true)));
         e2e.push((FieldId::F64, HashId::Blake3_256, OptSpec::new(7, 16, 4, 2, 4, 7), power_desc(64, 9)));
         e2e.push((FieldId::F128, HashId::Blake3_256, OptSpec::new(9, 8, 8, 1, 4, 15), power_desc(512, 3)));
+        // HIGH-DEGREE transition constraints on TINY traces: the constraint-evaluation blowup (the period of the inverse
+        // divisor table acc_column indexes) is 32/64/128 while the batches of batch_iter_mut! (ce_domain / next_pow2(threads))
+        // land below, at and above 16, the blowup and 128 — thread counts on both sides of every power of two up to 64
+        {
+            let tiny: Vec<usize> = vec![8, 16, 32];
+            // (the library requires the declared degrees to need the whole constraint-evaluation domain: (d-1)(n-1) > n*blowup/2)
+            let degs: Vec<u32> = if quick { vec![20, 33, 65, 129] } else { vec![3, 5, 9, 17, 20, 33, 40, 65, 80, 129] };
+            let flds = [(FieldId::F64, HashId::Blake3_256), (FieldId::F128, HashId::Sha3_256), (FieldId::F62, HashId::Blake3_192), (FieldId::F64, HashId::Rp64_256)];
+            let mut k = 0usize;
+            for &nn in &tiny {
+                for &d in &degs {
+                    let desc = power_desc(nn, d);
+                    let cb = desc.min_blowup();
+                    let blowups: Vec<usize> = if quick { vec![cb] } else { [cb, 128].into_iter().filter(|b| *b >= cb && *b <= 128).collect() };
+                    for &b in &blowups {
+                        let lde = nn * b;
+                        let mut opt = None;
+                        'search: for fo in [2usize, 4, 8, 16] {
+                            for rem in [0usize, 1, 3, 7] {
+                                if fri_well_formed(lde, b, fo, rem) {
+                                    opt = Some((fo, rem));
+                                    if (fo + rem + k) % 3 == 0 {
+                                        break 'search;
+                                    }
+                                }
+                            }
+                        }
+                        let Some((fo, rem)) = opt else { continue };
+                        let (field, hash) = flds[k % flds.len()];
+                        k += 1;
+                        let x = if field.supports_ext(2) && k % 2 == 0 { 2 } else { 1 };
+                        let o = OptSpec::new(4, b, 0, x, fo, rem);
+                        let ts = if quick { "t=8,9,16,17,32,33,64 r=1" } else { "t=1,7,8,9,15,16,17,31,32,33,63,64 r=2" };
+                        emit(format!("{} {}", prove_line(field, hash, &o, rng.u64() % 1000, &desc), ts));
+                    }
+                }
+            }
+        }
         for (field, hash, o, d) in &e2e {
             line(prove_line(*field, *hash, o, rng.u64() % 1000, d), emit);
         }
